@@ -81,6 +81,11 @@ theorem step_spc {cfg : Cfg} {s s' : State} (a : Action) (h : step cfg s a = som
   | write c i => exact Or.inl (spc_updConn h)
   | skip c i => exact Or.inl (spc_updConn h)
   | dec c i => exact Or.inl (spc_updConn h)
+  | drainTick c =>
+    simp only [step] at h
+    split at h <;> try contradiction
+    split at h <;> try contradiction
+    exact Or.inl (spc_updConn h)
   | drainClose c => exact Or.inl (spc_updConn h)
   | shutdownCall =>
     simp only [step] at h
